@@ -79,7 +79,7 @@ PROPS = {
     "C13": dict(theorems=["Props/C13.v"], parts=[
         dict(kind="macro", profile="C13", preds="frame", mask="counts,keys,queue", quick=400, thorough=10000)]),
     "C14": dict(theorems=["Props/C14.v"], parts=[
-        dict(kind="macro", profile="C14", preds="iso,pure,order,limit", mask="ret,keys", quick=400, thorough=10000),
+        dict(kind="macro", profile="C14", preds="iso,pure,order,limit,score", mask="ret,keys", quick=400, thorough=10000),
         dict(kind="sched", mode="sharing", quick=120, thorough=3000)]),
     "C17": dict(theorems=["parts/locks/coq|CLL|Props_C17.v"], parts=[
         dict(kind="locks"),
